@@ -1,8 +1,10 @@
 //! Correspondence harness: runs the real saito-core code and writes, per case, the request line
 //! for the Lean model driver and the implementation's canonical answer.
 mod alloc;
+mod chain;
 mod codec;
 mod common;
+mod node;
 
 #[global_allocator]
 static GLOBAL: alloc::Counting = alloc::Counting;
@@ -17,9 +19,14 @@ fn main() {
     let seed: u64 = args[2].parse().unwrap_or(1);
     let tier = args[3].as_str();
     let out = args[4].as_str();
-    common::quiet_panics();
+    if std::env::var("VERIF_LOUD").is_err() {
+        common::quiet_panics();
+    }
     match suite {
         "codec" => codec::run(seed, tier, out),
+        "chain" => chain::run(seed, tier, out),
+        "chain-worker" => chain::worker(seed, tier, args[4].parse().unwrap_or(0)),
+        "chain-flags" => println!("{}", chain::calibrate()),
         "codec-one" => {
             // replay of a single decoder input: harness codec-one <fmt> <hex> x
             let b = if args[3] == "-" { vec![] } else { hex::decode(&args[3]).unwrap() };
